@@ -210,6 +210,54 @@ def uses_on_random_size_list(call, what):
     return hit[0]
 
 
+def prog_rsz_uses(prog):
+    rsz = set()
+    for cn, cd in prog.get("classes", {}).items():
+        for fd in cd["fields"]:
+            if fd["k"] == "list" and fd.get("rsz"):
+                rsz.add(fd["n"])
+    uses = set()
+    if not rsz:
+        return uses
+
+    def fn(e):
+        if e[0] in ("sum", "prod") and e[1] and e[1][-1] in rsz:
+            uses.add("aggregate")
+        if e[0] == "fe" and e[1] and e[1][-1] in rsz:
+            uses.add("foreach")
+        if e[0] in ("in", "nin"):
+            for it in e[2]:
+                if it[0] == "lst" and it[1] and it[1][-1] in rsz:
+                    uses.add("member")
+        if e[0] == "uniq":
+            for it in e[1]:
+                if it[0] == "lst" and it[1] and it[1][-1] in rsz:
+                    uses.add("member")
+    for cn, cd in prog.get("classes", {}).items():
+        for b in cd["blocks"]:
+            _walk_exprs(b["st"], fn)
+    return uses
+
+
+def prog_has_rsz_aggregate(prog):
+    rsz = set()
+    for cn, cd in prog.get("classes", {}).items():
+        for fd in cd["fields"]:
+            if fd["k"] == "list" and fd.get("rsz"):
+                rsz.add(fd["n"])
+    if not rsz:
+        return False
+    hit = [False]
+
+    def fn(e):
+        if e[0] in ("sum", "prod") and e[1] and e[1][-1] in rsz:
+            hit[0] = True
+    for cn, cd in prog.get("classes", {}).items():
+        for b in cd["blocks"]:
+            _walk_exprs(b["st"], fn)
+    return hit[0]
+
+
 def failed_call_before_on_random_size_list(spec, ev):
     """F28 input predicate: the object has a random-size list and an earlier call on it ended in an exception"""
     hist = spec.get("hist", [])
@@ -324,6 +372,18 @@ def classify_one(prop, spec, k, m, ev):
             return "bounds-unbounded-int-range"
         if _f8(k, m, ev):
             return "swizzle-pins-low-bits-only"
+    if prop == "C16" and k == "continuation-diverges":
+        # the faulted session enters the continuation with a random-size list of another length (an aborted
+        # with-block / post_randomize call did solve and re-size it): the known random-size-list defects make the
+        # outcome of the next call depend on the length the list had before (stale element count in sum/product F9;
+        # foreach copies for elements that will not exist F27; membership not lowered F26)
+        uses = prog_rsz_uses(spec.get("prog", {}))
+        if "aggregate" in uses:
+            return "aggregate-of-random-size-list-stale-size"
+        if "foreach" in uses:
+            return "foreach-over-random-size-list-unguarded"
+        if "member" in uses:
+            return "membership-in-random-size-list-not-enforced"
     if prop == "C20":
         if k == "earlier-variable-value-starved" and _f8("feasible-value-starved", m, ev):
             return "swizzle-pins-low-bits-only"
